@@ -147,8 +147,8 @@ CHECKS = {
  "C20": dict(
   text=("c20_gate for all enable/disable/register histories; c20_wire (unquote . quote = id for every text, from the C03 lemmas); serve never 2xx on "
         "failure; c20_routes by decide over the regenerated route table and RemoteStore request table; endpoint histories refine library calls under "
-        "ReadOnlyLaw. Correspondence through the Flask test client (client-side quoting) for queries, store/cache endpoint histories, all gate "
-        "histories <= 5 and RemoteStore against a served store. Partial: Flask/werkzeug/WSGI are third-party parameters."),
+        "ReadOnlyLaw. Correspondence through the Flask test client (client-side quoting; requests' own URL preparation incl. params) for queries, store/cache "
+        "endpoint histories, all gate histories <= 5 and RemoteStore against a served store (MemoryStore, and a directory store for every fourth history). Partial: Flask/werkzeug/WSGI are third-party parameters."),
   note=("Trusted: Lean kernel; extract.py's ast reading of the view functions; Flask test client as the transport."),
  ),
  "C01": dict(
